@@ -10,7 +10,9 @@ package gen
 //	type ArMember struct{ Name string; Data []byte }
 //	func BuildAr(members []ArMember) []byte            // "!<arch>\n" + 60-byte headers + data (+ '\n' pad)
 //	func ParseAr(b []byte) ([]ArMember, error)         // independent reader of the same format (self-checks, features)
-//	type TarEntry struct{ Name string; Body []byte; Dir bool; Mode int64 }
+//	type TarEntry struct{ Name string; Body []byte; Dir bool; Mode int64; Fill int }   // Fill>0: body = PatternBytes(Name, Fill)
+//	func (e TarEntry) Content() []byte
+//	func PatternBytes(seed string, n int) []byte        // deterministic incompressible filler
 //	func BuildTar(entries []TarEntry) []byte           // ustar, fixed mtime/uid/gid: same input -> same bytes
 //	var  DebComps = []string{"none","gz","xz","bz2","lzma","zst"}
 //	func DebCompExt(comp string) string                 // "none" -> "", "gz" -> ".gz", "xz:9e" -> ".xz" ... (suffix after ".tar")
@@ -112,6 +114,32 @@ type TarEntry struct {
 	Body []byte
 	Dir  bool  `json:",omitempty"`
 	Mode int64 `json:",omitempty"`
+	Fill int   `json:",omitempty"` // when > 0 (and Body is empty) the body is PatternBytes(Name, Fill): big files stay small in JSON
+}
+
+// Content is the body the entry is written with.
+func (e TarEntry) Content() []byte {
+	if e.Fill > 0 && len(e.Body) == 0 {
+		return PatternBytes(e.Name, e.Fill)
+	}
+	return e.Body
+}
+
+// PatternBytes returns n deterministic pseudo-random (incompressible) bytes derived from seed (xorshift64*).
+func PatternBytes(seed string, n int) []byte {
+	h := sha256.Sum256([]byte(seed))
+	x := uint64(h[0]) | uint64(h[1])<<8 | uint64(h[2])<<16 | uint64(h[3])<<24 | uint64(h[4])<<32 | uint64(h[5])<<40 | uint64(h[6])<<48 | uint64(h[7])<<56 | 1
+	out := make([]byte, n)
+	for i := 0; i < n; i += 8 {
+		x ^= x >> 12
+		x ^= x << 25
+		x ^= x >> 27
+		v := x * 2685821657736338717
+		for k := 0; k < 8 && i+k < n; k++ {
+			out[i+k] = byte(v >> (8 * uint(k)))
+		}
+	}
+	return out
 }
 
 // BuildTar produces a ustar archive with fixed metadata so that equal input gives equal bytes.
@@ -126,7 +154,7 @@ func BuildTar(entries []TarEntry) []byte {
 		} else {
 			h.Typeflag = tar.TypeReg
 			h.Mode = 0o644
-			h.Size = int64(len(e.Body))
+			h.Size = int64(len(e.Content()))
 		}
 		if e.Mode != 0 {
 			h.Mode = e.Mode
@@ -135,7 +163,7 @@ func BuildTar(entries []TarEntry) []byte {
 			panic("gen.BuildTar: " + err.Error())
 		}
 		if !e.Dir {
-			w.Write(e.Body)
+			w.Write(e.Content())
 		}
 	}
 	w.Close()
@@ -483,7 +511,7 @@ func RenderDebControl(fields []DebField) []byte {
 //	Fields          the control paragraph
 //	ControlEntries  names of the control-tar entries in order; the entry whose cleaned name is "control" gets the
 //	                rendered paragraph, names ending in "/" become directories, every other entry gets a small
-//	                fixed body derived from its name
+//	                fixed body derived from its name, or PatternBytes(name, EntrySizes[name]) when a size is given
 //	DataFiles       entries of the data tar
 //	ControlComp, DataComp   one of DebComps
 type DebModel struct {
@@ -491,6 +519,7 @@ type DebModel struct {
 	BinaryRaw      bool   `json:",omitempty"` // take Binary literally even when empty
 	Fields         []DebField
 	ControlEntries []string
+	EntrySizes     map[string]int `json:",omitempty"` // control-tar entry name -> size of its PatternBytes body (siblings of ./control)
 	DataFiles      []TarEntry
 	ControlComp    string
 	DataComp       string
@@ -517,6 +546,8 @@ func (m DebModel) ControlTar() []byte {
 			es = append(es, TarEntry{Name: n, Dir: true})
 		case strings.TrimPrefix(n, "./") == "control":
 			es = append(es, TarEntry{Name: n, Body: RenderDebControl(m.Fields)})
+		case m.EntrySizes[n] > 0:
+			es = append(es, TarEntry{Name: n, Fill: m.EntrySizes[n]})
 		default:
 			es = append(es, TarEntry{Name: n, Body: []byte("# " + n + "\n")})
 		}
